@@ -116,9 +116,12 @@ NextPc(ev, pc) ==
 DepsCheck == E.ev = "init" => \A d \in Succ(sc, E.n) : (E.n \notin Reach(sc, d)) => L1[d] # NoV
 \* C05: all of the holder's points are populated before its before-initialization callbacks
 \* (the event's own snapshot is taken inside the callback: primed variables)
-PopCheck == (E.ev = "before" /\ sc.mode[E.n] # "shortcut") =>
-         /\ \A t \in sc.single[E.n] \ {E.n} : \E f \in fS' : f.h = E.n /\ f.t = t
-         /\ \A t \in sc.slice[E.n] \ {E.n} : \E f \in fL' : f.h = E.n /\ f.v.n = t
+PopCheck == /\ (E.ev = "before" /\ sc.mode[E.n] # "shortcut") =>
+                 /\ \A t \in sc.single[E.n] \ {E.n} : \E f \in fS' : f.h = E.n /\ f.t = t
+                 /\ \A t \in sc.slice[E.n] \ {E.n} : \E f \in fL' : f.h = E.n /\ f.v.n = t
+            \* ... and so are its configuration values (value / prop / prefix points of the node itself, observed by the
+            \* component from inside each of its callbacks: E.cfg = "they hold what this start's configuration prescribes")
+            /\ (E.ev \in {"before", "aps", "init", "after"} /\ "cfg" \in DOMAIN E /\ sc.mode[E.n] # "shortcut") => E.cfg
 \* C05: a successful creation went through every callback, in order, in this attempt
 EndCheck == (E.ev = "createEnd" /\ E.ok) => mpc[E.n] = (IF sc.mode[E.n] = "beforeNil" THEN "before" ELSE "after")
 \* C09: a start that returns nil met no injected fault on an eagerly reached component
